@@ -31,12 +31,12 @@ def counter_frames(rng, net, mtu):
     # record that straddles the end of the buffer is then really interpreted, not skipped as junk
     full, _ = G.f_emit(rng, net, m, n=fits_e, kinds=(0, 1))
     tail = bytes([rng.randint(0, 1), 0]) + rng.choice(net.strangers) + net.own
-    b = bytearray((full + tail * 2)[:mtu])
+    b = bytearray((full + tail * 2)[:max(mtu, 34)])
     struct.pack_into(">H", b, 32, fits_e + 1)
-    out.append(bytes(b))
+    out.append(bytes(b)[:mtu])
     b2 = bytearray(b)
     struct.pack_into(">H", b2, 32, fits_e + 2)
-    out.append(bytes(b2))
+    out.append(bytes(b2)[:mtu])
     for cnt in (0, 1, fits_s, fits_s + 1, 0xFFFF):
         carried = min(fits_s, cnt) if rng.random() < 0.7 else rng.randint(0, fits_s)
         sts = [rng.choice(net.strangers + [net.own]) for _ in range(carried)]
@@ -57,6 +57,10 @@ def make_scenarios(ctx, count):
         rng = G.rng_for(ctx.seed, "C01", i)
         fam = FAMILIES[i % len(FAMILIES)]
         cfg = G.rand_cfg(rng)
+        if i % 23 == 7 and fam != "esp32":
+            # an interface with a very small MTU (legal: 68 is the minimum Linux accepts on Ethernet); responses that cannot
+            # fit must not be built in an MTU-sized buffer
+            cfg["mtu"] = rng.choice(G.MTUS_TINY)
         mtu = cfg["mtu"]
         glob = G.rand_global(rng)
         net = G.Net(rng, cfg["mac"])
